@@ -306,7 +306,7 @@ theorem below_stepF {L : Lang} {n : Nat} (hbind : BindF L n) : BelowF L (n+1) :=
 
 /-! ## 8. `bind` -/
 
-theorem bind_stepF {L : Lang} {n : Nat} (habove : AboveF L n) (hbelow : BelowF L n) : BindF L (n+1) := by
+theorem bind_stepF {L : Lang} {n : Nat} (hunify : UnifyF L n) : BindF L (n+1) := by
   intro S σ v t σ' nc hc hv ht h
   cases t with
   | var tv =>
@@ -323,14 +323,14 @@ theorem bind_stepF {L : Lang} {n : Nat} (habove : AboveF L n) (hbelow : BelowF L
         · next σ1 h1 =>
           have k1 : Fr S σ σ1 := by
             split at h1
-            · exact fB.trans (habove S _ tv _ σ1 fB.nc fB.closed htv h1)
+            · exact fB.trans (hunify S _ _ _ σ1 fB.nc fB.closed (termIn_base _) ht h1)
             · injection h1 with h1; subst h1; exact fB
           split at h
           · cases h
           · next σ2 h2 =>
             have k2 : Fr S σ σ2 := by
               split at h2
-              · exact k1.trans (hbelow S _ tv _ σ2 k1.nc k1.closed htv h2)
+              · exact k1.trans (hunify S _ _ _ σ2 k1.nc k1.closed ht (termIn_base _) h2)
               · injection h2 with h2; subst h2; exact k1
             have e := checkConstraints_nc k2.nc _ h
             subst e; exact k2
@@ -502,7 +502,7 @@ theorem all_frame (L : Lang) : ∀ n,
     · intro S σ vs ps pl σ' _ _ _ h; unfold fixList at h; cases h
   | n+1 => by
     obtain ⟨h1, h2, h3, h4, h5, h6, h7⟩ := all_frame L n
-    exact ⟨unify_stepF h2 h3 h4 h5, unifyList_stepF h1 h2, bind_stepF h4 h5,
+    exact ⟨unify_stepF h2 h3 h4 h5, unifyList_stepF h1 h2, bind_stepF h1,
       above_stepF h3, below_stepF h3, fix_stepF h3 h7, fixList_stepF h6 h7⟩
 
 end Tfv.C16P
